@@ -42,6 +42,7 @@ type Outcome struct {
 	States     map[uint64]struct{} `json:"-"`
 	Leaked     int                `json:"leaked"`
 	Reached    bool               `json:"reached"` // the property's own reach probe fired
+	ScnDistinct bool              `json:"-"`       // distinctness also counts the scenario (configuration-quantified properties)
 	Trace      []verifsim.Event   `json:"trace,omitempty"`
 	Notes      []string           `json:"notes,omitempty"`
 }
